@@ -6,7 +6,8 @@
    toQ a is the rational an amount denotes, roundQ e q is q rounded half away from zero to e
    decimals, unitQ e = 10^-e (one unit of the e-th decimal; unitQ c is one minor currency unit). *)
 From Coq Require Import ZArith QArith Qabs List Bool.
-From Verif Require Import Base.Rha Num.Amount Num.AmountProofs Calc.Doc Calc.Calc Calc.BoundProofs.
+From Verif Require Import Base.Rha Num.Amount Num.AmountProofs Calc.Doc Calc.Calc Calc.BoundProofs
+  Calc.Ideal Calc.IdealProofs Calc.IdealBoundProofs.
 Import ListNotations.
 Open Scope Q_scope.
 
@@ -23,6 +24,93 @@ Print Assumptions line_precision_extra_is_2.
 Theorem tax_precision_extra_is_2 : tax_precision_extra = 2%nat.
 Proof. reflexivity. Qed.
 Print Assumptions tax_precision_extra_is_2.
+
+(* ------------------------------------------------------------------------------------------ *)
+(* FULL CLAIM, first sentence: every figure equals exact decimal arithmetic with rounding half  *)
+(* away from zero at the stated points - for EVERY document                                     *)
+(* ------------------------------------------------------------------------------------------ *)
+(* Calc/Ideal.v is the declarative specification: `ideal d` gives, for each figure the property
+   names, a formula over Q in the supplied quantities, prices, percentages and exchange rates in
+   which `rnd e` (round half away from zero to e decimals) occurs only at the rounding points, and
+   the number of decimals each figure is held at (a `fig` = value fq + decimals fp).
+   `den a f` : the amount a denotes exactly the figure f (toQ a == fq f) and has fp f decimals.
+   `pres c a q` : a denotes q and has c decimals.  `refines c t it` : every presented figure of t
+   (lines: price, sum, total, discount / charge rows, sub-lines; sum, discount, charge, tax
+   included, total, tax, total with tax, payable, advances, due; discount / charge / advance / due
+   rows) is the corresponding figure of it.
+   No restriction on the document: any lines, breakdowns, signs, line and document discounts and
+   charges (fixed, percentage, with and without base, rate x quantity), foreign-currency items,
+   taxes (included or not, retained, surcharges), advances, due dates, both rounding rules, any c. *)
+Theorem calc_refines_ideal d t : calculate d = Totals t ->
+  exists it, ideal d = Some it /\ refines (d_c d) t it.
+Proof. exact (IdealProofs.calc_refines_ideal d t). Qed.
+Print Assumptions calc_refines_ideal.
+
+(* each line by itself (also when the document as a whole has no totals): price, sum, total,
+   every discount and charge row and every sub-line denote the ideal figures, or both fail *)
+Theorem line_figures_are_ideal cr c cur rates l :
+  orel line_den (calc_line cr c cur rates l) (s_line rnd cr c cur rates l).
+Proof. exact (calc_line_refines cr c cur rates l). Qed.
+Print Assumptions line_figures_are_ideal.
+
+(* 3 x 0.3333 less 10% plus 0.125; a line priced by its breakdown with a 3-per-unit charge on 0.5
+   units; 5% document discount, 1.00 document charge; 21% tax; 50% advance; 50% due *)
+Definition c01_rich_doc : doc :=
+  let vat := mkCombo [Byte.x56] [] [] (Some (mkA 21 2)) None false [] in
+  mkDoc 2 false [] 1
+   [mkLine (mkA 3 0) (mkItem (mkA 3333 4) None []) []
+           [mkLdc (mkA 0 0) (Some (mkA 10 2)) None None None] [mkLdc (mkA 125 3) None None None None] [vat];
+    mkLine (mkA 7 0) (mkItem (mkA 1005 3) None []) [mkSub (mkA 2 0) (mkItem (mkA 1005 3) None []) [] []] []
+           [mkLdc (mkA 0 0) None None (Some (mkA 3 0)) (Some (mkA 5 1))] [vat]]
+   [mkDdc (mkA 0 0) (Some (mkA 5 2)) None [vat]] [mkDdc (mkA 100 2) None None []] []
+   [mkProw (mkA 0 0) (Some (mkA 50 2))] [mkProw (mkA 0 0) (Some (mkA 50 2))] None.
+
+Example calc_refines_ideal_applies :
+  exists t it, calculate c01_rich_doc = Totals t /\ ideal c01_rich_doc = Some it /\
+    t_sum t = mkA 1709 2 /\ t_discount t = Some (mkA 85 2) /\ t_charge t = Some (mkA 100 2) /\
+    t_total t = mkA 1724 2 /\ t_tax t = mkA 341 2 /\ t_twt t = mkA 2065 2 /\ t_due t = Some (mkA 1033 2) /\
+    i_total it == 1724 # 100 /\ i_tax it == 341 # 100 /\ i_twt it == 2065 # 100.
+Proof.
+  eexists. eexists. split; [vm_compute; reflexivity|]. split; [vm_compute; reflexivity|].
+  repeat split.
+Qed.
+
+(* ------------------------------------------------------------------------------------------ *)
+(* where the rounding points of the implementation are NOT the documented ones                  *)
+(* ------------------------------------------------------------------------------------------ *)
+(* far_from_exact d: 'precise' rule, at most one line, and the presented total is at least one
+   full minor unit away from the unrounded exact value (exact d = the specification with no
+   rounding at all).  Three independent causes, each replayed against the Go code:
+   rate x quantity charges are rounded at the decimals of the RATE (12.00 presented, 11.50 exact);
+   a price converted by an exchange rate is rounded to the currency's decimals before it is
+   multiplied by the quantity (920.00 / 915.00); the price of a line with a breakdown is rounded
+   to the decimals of the sub-line prices (10.00 / 5.00). *)
+Theorem precise_error_bound_unrestricted_refuted :
+  exists d, d_currency_rule d = false /\ (length (d_lines d) <= 1)%nat /\
+    exists t x, calculate d = Totals t /\ exact d = Some x /\
+      unitQ (d_c d) <= Qabs (toQ (t_total t) - i_total x).
+Proof. exact IdealBoundProofs.precise_error_bound_unrestricted_refuted. Qed.
+Print Assumptions precise_error_bound_unrestricted_refuted.
+
+Theorem rate_charge_rounded_at_rate_decimals_refuted : far_from_exact w_rate_charge.
+Proof. exact w_rate_charge_far. Qed.
+Print Assumptions rate_charge_rounded_at_rate_decimals_refuted.
+
+Theorem converted_price_rounded_before_multiplying_refuted : far_from_exact w_exchange.
+Proof. exact w_exchange_far. Qed.
+Print Assumptions converted_price_rounded_before_multiplying_refuted.
+
+Theorem breakdown_price_rounded_before_multiplying_refuted : far_from_exact w_breakdown.
+Proof. exact w_breakdown_far. Qed.
+Print Assumptions breakdown_price_rounded_before_multiplying_refuted.
+
+(* under 'currency' a line sum is not the product rounded ONCE to the currency's decimals when the
+   price has more decimals than the currency: 0.05 x 0.0999 gives 0.01, rounded once 0.00 *)
+Theorem currency_line_sum_single_rounding_refuted :
+  exists l lc, plain_line l /\ calc_line true 2 1 [] l = Some lc /\
+    val (lc_sum lc) <> roundQ 2 (toQ (it_price (ln_item l)) * toQ (ln_qty l)).
+Proof. exact IdealBoundProofs.currency_line_sum_single_rounding_refuted. Qed.
+Print Assumptions currency_line_sum_single_rounding_refuted.
 
 (* plain_line l: no breakdown, no line discounts / charges, no taxes, item priced in the document
    currency.  line_price c l: the price raised to at least c + 2 decimals (value unchanged).
